@@ -111,6 +111,12 @@ def _splice_closure_call(prog, body, raw, blocks, i, t, chain):
     ch = chain.get(i, ())
     if C is None or C.kind != "Closure" or len(C.blocks) > MAX_BLOCKS or cdef in ch or len(ch) >= MAX_DEPTH + 1:
         return None
+    # only a closure handed INTO the helper (built outside the spliced region that calls it): a closure the helper builds
+    # and calls itself is the helper's own structure, which the rules see as they do in any function
+    built_in = [bl.get("inl") for bl in blocks for s_ in bl["stmts"]
+                if s_["k"] == "assign" and s_["rv"]["k"] == "agg" and s_["rv"].get("ak") == "closure" and norm(s_["rv"]["def"]) == cdef]
+    if len(built_in) != 1 or built_in[0] == blocks[i].get("inl"):
+        return None
     nparams = C.arg_count - 1
     if nparams and (tup.get("k") not in ("move", "copy") or tup["p"]["proj"]):
         return None
